@@ -67,6 +67,7 @@ func modeParallel(root *rng.R, n int) {
 		cases = append(cases, c)
 	}
 	const G = 8
+	shared := encoding.NewDefaultUnmarshaller(true)
 	deadline := time.Now().Add(1500 * time.Millisecond)
 	var wg sync.WaitGroup
 	var mu sync.Mutex
@@ -99,7 +100,15 @@ func modeParallel(root *rng.R, n int) {
 							})
 						}
 						fm := c.m.TemplateMsg().Build()
-						if err := encoding.Unmarshal(fm, want); err != nil {
+						// every second parse goes through one decoder object shared by all goroutines (as
+						// several sessions given the same instance would use it)
+						perr := error(nil)
+						if c.rounds%2 == 0 {
+							perr = shared.Unmarshal(fm, want)
+						} else {
+							perr = encoding.Unmarshal(fm, want)
+						}
+						if err := perr; err != nil {
 							note(func() {
 								if c.parse == "" {
 									c.parse = "the message that parses alone was refused: " + err.Error()
